@@ -284,3 +284,68 @@ contract("specs.ldapmsg:lemma_rt_extended_request",
                   "content_of(%s) == name_b" % _XR,
                   "opt_none(rest_of(%s), 1, True) == (not has_value)" % _XR,
                   "implies(has_value, opt_val(rest_of(%s), 1, empty()) == value)" % _XR])
+contract("specs.ldapmsg:lemma_strs_enc_nth",
+         requires=["strs_enc(s, xs, i, n, cls, num)", "0 <= i", "i <= q", "q < n", "n <= len(xs)"],
+         ensures=["content_of(nth_rest(s, q - i)) == utf8(xs[q])"], decreases="q - i")
+contract("specs.ldapmsg:lemma_strs_enc_end",
+         requires=["strs_enc(s, xs, i, n, cls, num)", "0 <= i", "i <= n", "n <= len(xs)"],
+         ensures=["len(nth_rest(s, n - i)) == 0"], decreases="n - i")
+_ONE_OPT = "ite(has, e, empty())"
+contract("specs.ldapmsg:lemma_opt_single",
+         requires=["implies(has, tlv_of(e, 2, False, num, value))", "other != num"],
+         ensures=["opt_none(%s, num, True) == (not has)" % _ONE_OPT, "implies(has, opt_val(%s, num, empty()) == value)" % _ONE_OPT,
+                  "opt_none(%s, other, True)" % _ONE_OPT])
+_PAIR = "cat(ite(has_a, ea, empty()), ite(has_b, eb, empty()))"
+contract("specs.ldapmsg:lemma_opt_pair",
+         requires=["implies(has_a, tlv_of(ea, 2, False, na, va))", "implies(has_b, tlv_of(eb, 2, False, nb, vb))", "na != nb"],
+         ensures=["opt_none(%s, na, True) == (not has_a)" % _PAIR, "implies(has_a, opt_val(%s, na, empty()) == va)" % _PAIR,
+                  "opt_none(%s, nb, True) == (not has_b)" % _PAIR, "implies(has_b, opt_val(%s, nb, empty()) == vb)" % _PAIR])
+_LR = "cat(e_code, e_dn, e_msg, ite(has_ref, e_ref, empty()), tail)"
+_LR3 = "rest_of(rest_of(rest_of(%s)))" % _LR
+contract("specs.ldapmsg:lemma_rt_ldap_result",
+         requires=["tlv_of(e_code, 0, False, 10, c_code)", "tlv_of(e_dn, 0, False, 4, dn_b)", "tlv_of(e_msg, 0, False, 4, msg_b)",
+                   "implies(has_ref, tlv_of(e_ref, 2, True, 3, c_ref))",
+                   # what follows the result is not itself tagged [3] (BindResponse continues with [7], ExtendedResponse with [10] / [11])
+                   "implies(not has_ref, len(tail) == 0 or not (id_class(tail) == 2 and id_number(tail) == 3))"],
+         ensures=["content_of(%s) == c_code" % _LR, "content_of(rest_of(%s)) == dn_b" % _LR, "content_of(rest_of(rest_of(%s))) == msg_b" % _LR,
+                  "(len(%s) > 0 and id_class(%s) == 2 and id_number(%s) == 3) == has_ref" % (_LR3, _LR3, _LR3),
+                  "implies(has_ref, content_of(%s) == c_ref and rest_of(%s) == tail)" % (_LR3, _LR3),
+                  "implies(not has_ref, %s == tail)" % _LR3])
+
+# round trip theorems: hypotheses = the encoder's postcondition (witness style, as in the *_pack_inner contracts above) and the
+# decoder's postcondition (as in contracts/decode.py, with old(reader._view) := the octets E the encoder produced)
+_ENC_RES = ["tlv_of(e_code, 0, False, 10, c_code)", "len(c_code) >= 1", "tc(c_code) == code", "tlv_of(e_dn, 0, False, 4, dn_b)", "tlv_of(e_msg, 0, False, 4, msg_b)",
+            "implies(has_ref, tlv_of(e_ref, 2, True, 3, c_ref))"]
+
+
+def _dec_res(E, after):
+    e3 = "rest_of(rest_of(rest_of(%s)))" % E
+    hasref = "(len(%s) > 0 and id_class(%s) == 2 and id_number(%s) == 3)" % (e3, e3, e3)
+    return (["d_code == tc(content_of(%s))" % E, "d_dn_b == content_of(rest_of(%s))" % E, "d_msg_b == content_of(rest_of(rest_of(%s)))" % E,
+             "d_has_ref == %s" % hasref], "(rest_of(%s) if %s else %s)" % (e3, hasref, e3))
+
+
+_EB = "cat(e_code, e_dn, e_msg, ite(has_ref, e_ref, empty()), ite(has_creds, e_creds, empty()))"
+_DB, _VB = _dec_res(_EB, None)
+contract("specs.ldapmsg:thm_rt_bind_response",
+         requires=_ENC_RES + ["implies(has_creds, tlv_of(e_creds, 2, False, 7, creds))"] + _DB +
+                  ["d_creds_none == opt_none(%s, 7, True)" % _VB, "implies(not d_creds_none, d_creds == opt_val(%s, 7, empty()))" % _VB],
+         ensures=["d_code == code", "d_dn_b == dn_b", "d_msg_b == msg_b", "d_has_ref == has_ref",
+                  "d_creds_none == (not has_creds)", "implies(has_creds, d_creds == creds)"])
+_EX = "cat(e_code, e_dn, e_msg, ite(has_ref, e_ref, empty()), ite(has_name, e_name, empty()), ite(has_value, e_value, empty()))"
+_DX, _VX = _dec_res(_EX, None)
+contract("specs.ldapmsg:thm_rt_extended_response",
+         requires=_ENC_RES + ["implies(has_name, tlv_of(e_name, 2, False, 10, name_b))", "implies(has_value, tlv_of(e_value, 2, False, 11, value))"] + _DX +
+                  ["d_name_none == opt_none(%s, 10, True)" % _VX, "implies(not d_name_none, d_name_b == opt_val(%s, 10, empty()))" % _VX,
+                   "d_value_none == opt_none(%s, 11, True)" % _VX, "implies(not d_value_none, d_value == opt_val(%s, 11, empty()))" % _VX],
+         ensures=["d_code == code", "d_dn_b == dn_b", "d_msg_b == msg_b", "d_has_ref == has_ref",
+                  "d_name_none == (not has_name)", "implies(has_name, d_name_b == name_b)",
+                  "d_value_none == (not has_value)", "implies(has_value, d_value == value)"])
+contract("specs.ldapmsg:lemma_strs_enc_nonempty",
+         requires=["strs_enc(s, xs, i, n, cls, num)", "0 <= i", "i <= q", "q < n", "n <= len(xs)"],
+         ensures=["len(nth_rest(s, q - i)) > 0"], decreases="q - i")
+contract("specs.ldapmsg:thm_rt_referrals",
+         requires=["strs_enc(c_ref, xs, 0, n, 0, 4)", "0 <= n", "n <= len(xs)", "0 <= count",
+                   # the decoder's postcondition about the list it built (contracts/decode.py, _unpack_ldap_result)
+                   "len(nth_rest(c_ref, count)) == 0", "forall(k, 0, count, len(nth_rest(c_ref, k)) > 0)"],
+         ensures=["count == n", "implies(0 <= q and q < n, unutf8(content_of(nth_rest(c_ref, q))) == unutf8(utf8(xs[q])))"])
